@@ -31,6 +31,7 @@ type X struct {
 	FailWrite    int // fail the k-th output write (1-based), 0 = never
 	FaultStep    int // step at which the injected fault fired (0 = none)
 	FaultText    string
+	Stream       string // pty: everything the terminal received
 	CycleBegin   []int       // steps at which the container goroutine took a refresh request
 	TermFills    map[int]int // per bar: Fill calls that saw a terminal state
 	Queued       map[int]int // per predecessor: successors queued behind it so far
